@@ -379,7 +379,7 @@ func (g *gen) hostilePut() m.Put {
 	case x == 2:
 		p.Idx = append(p.Idx, m.IdxE{N: m.K("a"), K: m.K("b/c")}, m.IdxE{N: m.K("a/b"), K: m.K("c")}) // the same entry key
 	case x == 3 && g.rng.Intn(3) == 0:
-		for n := 20 + g.rng.Intn(100); n > 0; n-- {
+		for n := 20 + g.rng.Intn(60); n > 0; n-- {
 			p.Idx = append(p.Idx, m.IdxE{N: m.K(g.pick(append(hostileIdxNames, idxNames...))), K: m.K(fmt.Sprintf("%s%d", g.pick(hostileIdxKeys), g.rng.Intn(30)))})
 		}
 	}
